@@ -62,8 +62,9 @@ class PyFatFS(FS):
         if utc:
             self.tz = datetime.timezone.utc
         else:
-            self.tz = datetime.datetime.now(datetime.timezone.utc)
-            self.tz = self.tz.astimezone().tzinfo
+            # Naive local time: the platform's time zone rules (including
+            # daylight saving time) apply to every single timestamp
+            self.tz = None
 
     def close(self):
         """Clean up open handles."""
@@ -106,13 +107,23 @@ class PyFatFS(FS):
 
         info = {"basic": {"name": repr(entry),
                           "is_dir": entry.is_directory()},
-                "details": {"accessed": entry.get_atime().timestamp(),
-                            "created": entry.get_ctime().timestamp(),
+                "details": {"accessed": self.__timestamp(entry.get_atime()),
+                            "created": self.__timestamp(entry.get_ctime()),
                             "metadata_changed": None,
-                            "modified": entry.get_mtime().timestamp(),
+                            "modified": self.__timestamp(entry.get_mtime()),
                             "size": entry.filesize,
                             "type": self.gettype(path)}}
         return Info(info)
+
+    def __timestamp(self, dt: datetime.datetime) -> float:
+        """Convert stored (naive) date and time to a POSIX timestamp.
+
+        The stored fields are UTC if the filesystem has been opened with
+        ``utc=True`` and local time otherwise.
+        """
+        if self.tz is not None:
+            dt = dt.replace(tzinfo=self.tz)
+        return dt.timestamp()
 
     def getmeta(self, namespace=u'standard'):
         """Get generic filesystem metadata.
@@ -567,5 +578,6 @@ class PyFatBytesIOFS(PyFatFS):
         if utc:
             self.tz = datetime.timezone.utc
         else:
-            self.tz = datetime.datetime.now(datetime.timezone.utc)
-            self.tz = self.tz.astimezone().tzinfo
+            # Naive local time: the platform's time zone rules (including
+            # daylight saving time) apply to every single timestamp
+            self.tz = None
